@@ -54,6 +54,10 @@ def ty_coq(t):
         return "(arr2 Z)"
     if t == "nd":
         return "(nd F)"
+    if t == "LAM":
+        return "L"
+    if isinstance(t, tuple) and t[0] == "record":
+        return "(%s F L)" % t[1]
     if t == "unit":
         return "unit"
     if isinstance(t, tuple) and t[0] == "list":
@@ -84,7 +88,8 @@ def ann_type(node, overrides, key):
 class Fn:
     """translation of one function"""
 
-    def __init__(self, mod, node, sigs, overrides):
+    def __init__(self, mod, node, sigs, overrides, externs=None):
+        self.externs = externs or {}   # source name -> (arg types, return type, Coq name, monadic?)
         self.mod = mod
         self.node = node
         self.sigs = sigs            # name -> (arg types, return type) of translated functions
@@ -120,6 +125,20 @@ class Fn:
             if e.id not in env:
                 raise Unsupported("unknown name %s" % e.id)
             return [], cname(e.id), env[e.id]
+        if isinstance(e, ast.Attribute):
+            b, c, t = self.expr(e.value, env)
+            if isinstance(t, tuple) and t[0] == "record" and e.attr in t[2]:
+                return b, "(%s %s)" % (t[3] + e.attr, c), t[2][e.attr]
+            if t == ("list", "F") and e.attr == "size":
+                return b, "(py_len %s)" % c, "int"
+            raise Unsupported("attribute %s" % ast.unparse(e))
+        if isinstance(e, ast.IfExp):
+            bc, cc, tc = self.expr(e.test, env)
+            b1, c1, t1 = self.expr(e.body, env)
+            b2, c2, t2 = self.expr(e.orelse, env)
+            if b1 or b2 or tc != "bool" or repr(t1) != repr(t2):
+                raise Unsupported("conditional expression %s" % ast.unparse(e))
+            return bc, "(if %s then %s else %s)" % (cc, c1, c2), t1
         if isinstance(e, ast.UnaryOp):
             if isinstance(e.op, ast.USub):
                 b, c, t = self.expr(e.operand, env)
@@ -288,6 +307,12 @@ class Fn:
             if isinstance(sl, ast.Constant) and sl.value in (0, 1) and len(t[1]) == 2:
                 return b, "(%s %s)" % ("fst" if sl.value == 0 else "snd", c), t[1][sl.value]
             raise Unsupported("tuple subscript")
+        if t == ("list", "F") and not isinstance(sl, (ast.Slice, ast.Tuple)):
+            bi, ci, ti = self.expr(sl, env)
+            if ti == ("list", "int"):
+                # a[indices]: NumPy fancy indexing with a list of integers
+                v = self.fresh()
+                return b + bi + [(v, "mapM (py_getitem %s) %s" % (c, ci))], v, ("list", "F")
         if isinstance(t, tuple) and t[0] == "list":
             if isinstance(sl, ast.Slice):
                 if sl.step is not None or sl.lower is None or sl.upper is None:
@@ -315,6 +340,40 @@ class Fn:
                 raise Unsupported("argument types in call of %s: %s vs %s" % (fn, [a[2] for a in args], at))
             v = self.fresh()
             return sum((a[0] for a in args), []) + [(v, "%s %s" % (fname(fn), " ".join(a[1] for a in args)))], v, rt
+        if fn in self.externs:
+            if e.keywords:
+                raise Unsupported("keyword arguments in call of %s" % fn)
+            args = [self.expr(a, env) for a in e.args]
+            at, rt, coq, monadic = self.externs[fn]
+            if [repr(a[2]) for a in args] != [repr(x) for x in at]:
+                raise Unsupported("argument types in call of %s: %s vs %s" % (fn, [a[2] for a in args], at))
+            pre = sum((a[0] for a in args), [])
+            app = "%s %s" % (coq, " ".join(a[1] for a in args))
+            if monadic:
+                v = self.fresh()
+                return pre + [(v, app)], v, rt
+            return pre, "(%s)" % app, rt
+        if fn == "np.sum" and len(e.args) == 1 and not e.keywords:
+            b, c, t = self.expr(e.args[0], env)
+            if t == ("list", "F"):
+                return b, "(np_sum %s)" % c, "F"
+        if fn in ("max", "min") and len(e.args) == 2 and not e.keywords:
+            # Python's max(a, b) is b if b > a else a; min(a, b) is b if b < a else a (an int operand converts exactly)
+            b1, c1, t1 = self.expr(e.args[0], env)
+            b2, c2, t2 = self.expr(e.args[1], env)
+            if {t1, t2} <= {"F", "int"} and "F" in (t1, t2):
+                if t1 == "int":
+                    c1 = "(of_int %s)" % c1
+                if t2 == "int":
+                    c2 = "(of_int %s)" % c2
+                cond = "fltb %s %s" % ((c1, c2) if fn == "max" else (c2, c1))
+                return b1 + b2, "(if %s then %s else %s)" % (cond, c2, c1), "F"
+        if fn == "np.zeros" and len(e.args) == 1 and not e.keywords and not isinstance(e.args[0], (ast.Tuple, ast.List, ast.Attribute)) \
+                or (fn == "np.zeros" and len(e.args) == 1 and not e.keywords and isinstance(e.args[0], ast.Attribute) and e.args[0].attr == "size"):
+            b, c, t = self.expr(e.args[0], env)
+            if t == "int":
+                v = self.fresh()
+                return b + [(v, "np_full1 f0 %s" % c)], v, ("list", "F")
         if fn == "int" and len(e.args) == 1 and not e.keywords:
             b, c, t = self.expr(e.args[0], env)
             if t == "float":
@@ -496,8 +555,13 @@ class Fn:
                     bi, ci, ti = self.expr(tgt.slice, env)
                     if ti != ("list", "int"):
                         raise Unsupported("1-D store with index %s" % (ti,))
-                    v = self.lit_F(s.value)
-                    return self.wrap(bi, "%s <- py_set_indices %s %s %s ;;\n  %s" % (cname(a), cname(a), ci, v, nxt(env)))
+                    try:
+                        v, bv = self.lit_F(s.value), []
+                    except Unsupported:
+                        bv, v, tv = self.expr(s.value, env)
+                        if tv != "F":
+                            raise Unsupported("1-D store of a %s" % (tv,))
+                    return self.wrap(bi + bv, "%s <- py_set_indices %s %s %s ;;\n  %s" % (cname(a), cname(a), ci, v, nxt(env)))
                 if ta == "arr2" and isinstance(tgt.slice, ast.Tuple) and len(tgt.slice.elts) == 2 \
                         and isinstance(tgt.slice.elts[1], ast.Slice) and tgt.slice.elts[1].step is None \
                         and tgt.slice.elts[1].lower is not None and tgt.slice.elts[1].upper is not None:
@@ -541,20 +605,38 @@ class Fn:
             names = [n for n in self.assigned(s.body + s.orelse)]
             envs = []
 
+            joined = {}
+
             def kk(e2):
                 envs.append(e2)
                 for n in names:
                     if n not in e2:
                         raise Unsupported("%s is not bound on every path of the if" % n)
-                return "Ret %s" % self.state_pat(names)[0]
+                if not joined:
+                    return "Ret %s" % self.state_pat(names)[0]
+                # second pass: an int that meets a float at the join converts exactly
+                parts = [("(of_int %s)" % cname(n)) if (joined[n] == "F" and e2[n] == "int") else cname(n) for n in names]
+                return "Ret %s" % (parts[0] if len(parts) == 1 else "(" + ", ".join(parts) + ")")
+            saved_tmp = self.tmp
             cb = self.block(s.body, env, kk)
             ce = self.block(s.orelse, env, kk)
             env2 = dict(env)
+            need_second = False
             for n in names:
                 ts = {repr(e2[n]) for e2 in envs}
-                if len(ts) != 1:
+                if ts == {repr("F"), repr("int")}:
+                    joined[n] = "F"
+                    need_second = True
+                elif len(ts) != 1:
                     raise Unsupported("%s has different types on the two paths" % n)
-                env2[n] = envs[0][n]
+                else:
+                    joined[n] = envs[0][n]
+                env2[n] = joined[n]
+            if need_second:
+                self.tmp = saved_tmp
+                envs.clear()
+                cb = self.block(s.body, env, kk)
+                ce = self.block(s.orelse, env, kk)
             return self.wrap(b, "%s <- (if %s then\n  %s\n  else\n  %s) ;;\n  %s" % (self.state_pat(names)[1], c, cb, ce, nxt(env2)))
         if isinstance(s, ast.For):
             if s.orelse:
@@ -663,8 +745,30 @@ TARGETS = {
                                  {("assign_point_cluster_labels", "label_assignment_cost"): "arr2",
                                   ("assign_point_cluster_labels", "label_switching_cost"): "nd",
                                   ("assign_point_cluster_labels", "return"): ("tuple", [("list", "int"), "F"])}),
+    "solver": ("admm/solver.py", ["soft_threshold_prox", "admm_update_u", "admm_update_z"],
+               {("soft_threshold_prox", "scaled_point_sum"): "F", ("soft_threshold_prox", "lambda_sum"): "F",
+                ("soft_threshold_prox", "rho_times_r"): "F", ("soft_threshold_prox", "return"): "F",
+                ("admm_update_u", "u"): ("list", "F"), ("admm_update_u", "x"): ("list", "F"), ("admm_update_u", "z"): ("list", "F"),
+                ("admm_update_u", "return"): ("list", "F"),
+                ("admm_update_z", "args"): ("record", "admm_args",
+                                            {"window_size": "int", "num_data_series": "int", "rho": "F", "sparsity_weight": "LAM"}, "aa_"),
+                ("admm_update_z", "u"): ("list", "F"), ("admm_update_z", "x"): ("list", "F"),
+                ("admm_update_z", "return"): ("list", "F")}),
 }
-KERNEL_MODULES = {"cluster_label_assignment"}
+# per kernel module: extra imports, extra section variables, and calls rendered as section variables / imported definitions
+KERNEL_MODULES = {
+    "cluster_label_assignment": {"imports": "", "vars": "", "externs": {}},
+    "solver": {
+        "imports": "From Ticc Require Import Gen.G_unique_values.\n",
+        "vars": ("  Variable L : Type.                            (* the sparsity weight as the caller passed it (opaque) *)\n"
+                 "  Variable np_sum : list F -> F.                (* np.sum on a 1-D float64 array (pairwise summation) *)\n"
+                 "  (* compute_lambda_sum(lambda, block, row, col, N, W): not translated (isinstance dispatch); uninterpreted *)\n"
+                 "  Variable compute_lambda_sum : L -> Z -> Z -> Z -> Z -> Z -> res F.\n"),
+        "externs": {
+            "compute_lambda_sum": (["LAM", "int", "int", "int", "int", "int"], "F", "compute_lambda_sum", True),
+            "unique_values.locations_compressed": (["int"] * 5, ("list", "int"), "g_locations_compressed", True),
+        }},
+}
 
 HEADER = """(* GENERATED by vcheck/py2coq.py from %(src)s - do not edit.
    Regenerated from /repo's working tree on every run; the equivalence theorems in
@@ -690,7 +794,7 @@ KHEADER = """(* GENERATED by vcheck/py2coq.py from %(src)s - do not edit.
 From Coq Require Import String.
 From Coq Require Import ZArith QArith List Bool.
 From Ticc Require Import Gen.PyRt.
-Import ListNotations.
+%(imports)sImport ListNotations.
 Local Open Scope Z_scope.
 
 Section Gen.
@@ -699,7 +803,7 @@ Section Gen.
   Variables fadd fsub fmul fdiv : F -> F -> F.  (* + - * / on float64 *)
   Variable fltb : F -> F -> bool.               (* < on float64 *)
   Variable of_int : Z -> F.                     (* int -> float64 conversion *)
-
+%(vars)s
 """
 
 
@@ -709,7 +813,12 @@ def translate_module(mod, src_root):
     tree = ast.parse(open(path).read())
     funcs = {n.name: n for n in tree.body if isinstance(n, ast.FunctionDef)}
     sigs = {}
-    out = [(KHEADER if mod in KERNEL_MODULES else HEADER) % {"src": "src/fast_ticc/" + rel}]
+    if mod in KERNEL_MODULES:
+        km = KERNEL_MODULES[mod]
+        out = [KHEADER % {"src": "src/fast_ticc/" + rel, "imports": km["imports"], "vars": km["vars"]}]
+    else:
+        km = {"externs": {}}
+        out = [HEADER % {"src": "src/fast_ticc/" + rel}]
     report = {}
     for name in names:
         if name not in funcs:
@@ -718,7 +827,7 @@ def translate_module(mod, src_root):
             continue
         node = funcs[name]
         try:
-            fn = Fn(mod, node, sigs, overrides)
+            fn = Fn(mod, node, sigs, overrides, km["externs"])
             text = fn.translate()
             at = [ann_type(a.annotation, overrides, (name, a.arg)) for a in node.args.args]
             sigs[name] = (at, fn.ret)
